@@ -234,17 +234,28 @@ func (r *reader) GetByKey(key []byte, keyHash []byte, tctx int64) (message.Messa
 	return message.Invalid, index.ErrKeyNotFound
 }
 
-func (r *reader) GetByTime(ts int64, tctx int64) (message.Message, error) {
+// TimePosition finds, using the index only, the position of the first message at or
+// after ts and reports if that is the first message of the segment
+func (r *reader) TimePosition(ts int64, tctx int64) (int64, bool, error) {
 	index, err := r.getIndexAt(tctx)
 	if err != nil {
-		return message.Invalid, err
+		return -1, false, err
 	}
 
 	position, err := index.Time(ts)
 	if err != nil {
-		return message.Invalid, err
+		return -1, false, err
 	}
 
+	firstPosition, _, _, err := index.Consume(message.OffsetOldest)
+	if err != nil {
+		return -1, false, err
+	}
+
+	return position, position == firstPosition, nil
+}
+
+func (r *reader) GetAt(position int64) (message.Message, error) {
 	messages, err := r.getMessages()
 	if err != nil {
 		return message.Invalid, err
